@@ -8,7 +8,7 @@
    their unsigned / two's complement reading; accepted = representable range, plus 1 for a signed
    1-bit field. *)
 From Coq Require Import ZArith List Bool Lia.
-From Cffi Require Import C03.Mem C03.Store C02.Spec C02.Model C02.Proofs C02.Interp C02.GenProofs.
+From Cffi Require Import C03.Mem C03.Store C02.Spec C02.Model C02.Proofs C02.IR C02.Gen C02.Interp C02.GenProofs.
 Import ListNotations.
 Open Scope Z_scope.
 
@@ -90,7 +90,8 @@ Proof. exact read_like_C. Qed.
 Print Assumptions C02_reads_like_C.
 
 (* the source's own expressions (regenerated into C02/Gen.v), run by the C-expression evaluator
-   inside the code's control skeleton, compute exactly the model — on every placement, every unit
+   inside the code's control skeleton (including the regenerated way `value` is obtained from
+   the Python object: PyLong_AsLongLong + error check), compute exactly the model — on every placement, every unit
    content and every v; so all theorems above hold of them, in particular no UB *)
 Theorem C02_gen_read_refines : forall T w sh data, placement T w sh -> unit_ok T data ->
   gen_read T w sh data = bf_read T w sh data.
